@@ -180,3 +180,56 @@ def rand_molecule(rng, elements, charge_p=0.3):
     if rng.random() < charge_p:
         comp[0] = rng.choice([-2, -1, 1, 2, 3])
     return comp
+
+
+# ---- reactions written as TEXT with repeated terms (Reaction.from_string / ReactionSystem.from_string) ------------------
+def split_terms(rng, pairs, p_split=0.6):
+    """[[key, n], ...] (a dict) -> written terms [[n_i, key], ...]: coefficients are split into several terms naming the same
+    species (bare + bare, bare + coefficient, coefficient + bare, coefficient + coefficient), occasionally a `0 X` term is added"""
+    terms = []
+    for k, n in pairs:
+        parts = []
+        left = n
+        while left > 0:
+            if left > 1 and rng.random() < p_split:
+                a = rng.randint(1, left - 1)
+            else:
+                a = left
+            parts.append(a)
+            left -= a
+        if n == 0 or rng.random() < 0.05:
+            parts.append(0)
+        for a in parts:
+            terms.append([a, k])
+    rng.shuffle(terms)
+    return terms
+
+
+def render_side(rng, active, inactive):
+    """one side of a reaction string; inactive terms are parenthesised"""
+    def term(n, k):
+        if n == 1 and rng.random() < 0.8:
+            return k
+        return ('%d * %s' if rng.random() < 0.2 else '%d %s') % (n, k)
+    items = [term(n, k) for n, k in active] + ['(%s)' % term(n, k) for n, k in inactive]
+    rng.shuffle(items)
+    return ' + '.join(items)
+
+
+def written_reaction(rng, spec):
+    """spec (dicts) -> (terms dict, reaction line 'lhs -> rhs; k'); param must be an integer"""
+    t = {p: split_terms(rng, spec[p]) for p in ('reac', 'prod', 'inact_reac', 'inact_prod')}
+    if rng.random() < 0.3 and spec['reac']:                    # the same species active AND inactive on one side
+        k = rng.choice(spec['reac'])[0]
+        t['inact_reac'].append([rng.randint(1, 2), k])
+    line = '%s -> %s; %d' % (render_side(rng, t['reac'], t['inact_reac']), render_side(rng, t['prod'], t['inact_prod']),
+                             int(frac(spec['param'])))
+    return dict(t, param=spec['param']), line
+
+
+def terms_count(terms, part, s):
+    return sum(n for n, k in terms[part] if k == s)
+
+
+def terms_net(terms, s):
+    return terms_count(terms, 'prod', s) - terms_count(terms, 'reac', s) + terms_count(terms, 'inact_prod', s) - terms_count(terms, 'inact_reac', s)
